@@ -9,6 +9,9 @@ import Alpaqa.Proofs.C10Misc
 import Alpaqa.Proofs.C10Remove
 import Alpaqa.Proofs.C10Solve
 import Alpaqa.Proofs.C10Anderson
+import Alpaqa.Proofs.C10Pivot
+import Alpaqa.Proofs.C10Trunc
+import Alpaqa.Proofs.C10Givens
 
 namespace Alpaqa.C10
 open Finset Alpaqa Alpaqa.Gen
@@ -470,6 +473,128 @@ theorem AAInv.compute_ls (hs : SqrtLaw α) (fuel : ℕ) (giv : α → α → α 
     rw [computeCore_gam fuel giv a g r (by have := hring2.cap; omega)]
   rw [Finset.sum_congr rfl e]
   exact key
+
+/-! ### pivots, independence and truncated solves inside AndersonAccel -/
+
+theorem aa_qr1_orth (giv : α → α → α × α × α) (hg : GivensOK giv) {n mAA : ℕ} {a : AA α}
+    {W gs : List (ℕ → α)} {rl : ℕ → α} (h : AAInv n mAA a W gs rl) (hO : Orth a.qr) :
+    Orth (a.qr1 giv) := by
+  have hmpos : 0 < mAA := by rw [← h.qr.hm]; exact h.qr.ring.mpos
+  unfold AA.qr1
+  split_ifs with hf
+  · have hfull : W.length = mAA := by
+      simpa [aaFull, lmqrNumColumns, h.qr.len, h.qr.hm] using hf
+    exact removeColumn_orth giv hg a.qr h.qr.ring (by rw [h.qr.len, hfull]; exact hmpos) hO
+  · exact hO
+
+theorem aa_qr1_pivnz (giv : α → α → α × α × α) (hg : GivensOK giv) {n mAA : ℕ} {a : AA α}
+    {W gs : List (ℕ → α)} {rl : ℕ → α} (h : AAInv n mAA a W gs rl) (hP : PivNZ a.qr) :
+    PivNZ (a.qr1 giv) := by
+  have hmpos : 0 < mAA := by rw [← h.qr.hm]; exact h.qr.ring.mpos
+  unfold AA.qr1
+  split_ifs with hf
+  · have hfull : W.length = mAA := by
+      simpa [aaFull, lmqrNumColumns, h.qr.len, h.qr.hm] using hf
+    exact removeColumn_pivnz giv hg a.qr h.qr.ring (by rw [h.qr.len, hfull]; exact hmpos) hP
+  · exact hP
+
+theorem aa_qr1_lt (giv : α → α → α × α × α) (hg : GivensOK giv) {n mAA : ℕ} {a : AA α}
+    {W gs : List (ℕ → α)} {rl : ℕ → α} (h : AAInv n mAA a W gs rl) :
+    (a.qr1 giv).qIdx < (a.qr1 giv).m := by
+  have hmpos : 0 < mAA := by rw [← h.qr.hm]; exact h.qr.ring.mpos
+  have hcap : W.length ≤ mAA := by rw [← h.qr.len, ← h.qr.hm]; exact h.qr.ring.cap
+  have h1 : QRInv n mAA (a.qr1 giv) (if W.length = mAA then W.tail else W) := aa_qr1 giv hg h
+  rw [h1.len, h1.hm]; split_ifs with hf
+  · rw [List.length_tail, hf]; omega
+  · omega
+
+/-- `compute` keeps the pivots nonzero -/
+theorem AAInv.compute_pivnz (fuel : ℕ) (giv : α → α → α × α × α) (hg : GivensOK giv) {n mAA : ℕ}
+    {a : AA α} {W gs : List (ℕ → α)} {rl : ℕ → α} (h : AAInv n mAA a W gs rl) (g r : ℕ → α)
+    (hnz : (addCore fuel (a.qr1 giv) (fun j => r j - readV a.rLast j)).2.2.1 ≠ 0) (hP : PivNZ a.qr) :
+    PivNZ (a.computeCore fuel giv g r).1.qr :=
+  addColumn_pivnz fuel (a.qr1 giv) (aa_qr1 giv hg h).ring (aa_qr1_lt giv hg h) _ hnz
+    (aa_qr1_pivnz giv hg h hP)
+
+/-- the `norm_q` of `compute`'s `add_column` is nonzero when the new residual difference is not in the
+    span of the residual differences that stay in the window -/
+theorem AAInv.compute_hnz (hs : SqrtLaw α) (fuel : ℕ) (giv : α → α → α × α × α) (hg : GivensOK giv)
+    {n mAA : ℕ} {a : AA α} {W gs : List (ℕ → α)} {rl : ℕ → α} (h : AAInv n mAA a W gs rl) (r : ℕ → α)
+    (hO : Orth a.qr) (hP : PivNZ a.qr)
+    (hind : ¬ ∃ z : ℕ → α, ∀ j < n, r j - rl j =
+      ∑ k ∈ range (if W.length = mAA then W.tail else W).length,
+        winFn (if W.length = mAA then W.tail else W) k j * z k) :
+    (addCore fuel (a.qr1 giv) (fun j => r j - readV a.rLast j)).2.2.1 ≠ 0 := by
+  have h1 : QRInv n mAA (a.qr1 giv) (if W.length = mAA then W.tail else W) := aa_qr1 giv hg h
+  apply addCore_norm_ne_zero hs fuel (a.qr1 giv) h1.ring _ h1.repr (aa_qr1_orth giv hg h hO)
+    (aa_qr1_pivnz giv hg h hP)
+  rintro ⟨z, hz⟩
+  apply hind
+  refine ⟨z, fun j hj => ?_⟩
+  have := hz j (by rw [h1.hn]; exact hj)
+  rw [h1.len] at this
+  rw [← this, h.rlast j hj]
+
+/-- **γ_LS for any pivots**: the components of pivots below `max_eig · min_div_fac` are 0, the residual
+    `ΔR γ − rₖ` is orthogonal to `q_k` for every other pivot, and γ_LS is a least-squares minimiser for the
+    deflated window (see `solveCol_truncated`). -/
+theorem AAInv.compute_trunc (hs : SqrtLaw α) (fuel : ℕ) (giv : α → α → α × α × α) (hg : GivensOK giv)
+    {n mAA : ℕ} {a : AA α} {W gs : List (ℕ → α)} {rl : ℕ → α} (h : AAInv n mAA a W gs rl) (g r : ℕ → α)
+    (hnz : (addCore fuel (a.qr1 giv) (fun j => r j - readV a.rLast j)).2.2.1 ≠ 0) (hO : Orth a.qr)
+    (hpz : ∀ k < (aaNextW mAA W rl r).length,
+      ¬ |(a.qrNext fuel giv r).getR k k| < aaTol (a.qrNext fuel giv r).maxEig a.minDivFac →
+        (a.qrNext fuel giv r).getR k k ≠ 0) :
+    (∀ k < (aaNextW mAA W rl r).length,
+      |(a.qrNext fuel giv r).getR k k| < aaTol (a.qrNext fuel giv r).maxEig a.minDivFac →
+        readV (a.computeCore fuel giv g r).1.gamLS k = 0) ∧
+    (∀ k < (aaNextW mAA W rl r).length,
+      ¬ |(a.qrNext fuel giv r).getR k k| < aaTol (a.qrNext fuel giv r).maxEig a.minDivFac →
+        ∑ j ∈ range n, (a.qrNext fuel giv r).Q.get j k *
+          (∑ i ∈ range (aaNextW mAA W rl r).length,
+            winFn (aaNextW mAA W rl r) i j * readV (a.computeCore fuel giv g r).1.gamLS i - r j) = 0) ∧
+    ∀ z : ℕ → α,
+      ∑ j ∈ range n, (∑ k ∈ range (aaNextW mAA W rl r).length,
+          deflated (a.qrNext fuel giv r) (aaTol (a.qrNext fuel giv r).maxEig a.minDivFac) k j *
+            readV (a.computeCore fuel giv g r).1.gamLS k - r j) ^ 2 ≤
+      ∑ j ∈ range n, (∑ k ∈ range (aaNextW mAA W rl r).length,
+          deflated (a.qrNext fuel giv r) (aaTol (a.qrNext fuel giv r).maxEig a.minDivFac) k j * z k
+            - r j) ^ 2 := by
+  have hnext := h.compute fuel giv hg g r hnz
+  have hO2 : Orth (a.qrNext fuel giv r) := h.compute_orth hs fuel giv hg g r hnz hO
+  have hlen : (a.qrNext fuel giv r).qIdx = (aaNextW mAA W rl r).length := hnext.qr.len
+  have hn2 : (a.qrNext fuel giv r).n = n := hnext.qr.hn
+  have hring2 : RingInv (a.qrNext fuel giv r) := hnext.qr.ring
+  have hrepr : Represents (a.qrNext fuel giv r) (winFn (aaNextW mAA W rl r)) := hnext.qr.repr
+  obtain ⟨t1, t2, t3⟩ := solveCol_truncated (a.qrNext fuel giv r) hring2 _ hrepr hO2 r (readV a.gamLS)
+    (aaTol (a.qrNext fuel giv r).maxEig a.minDivFac) (by rw [hlen]; exact hpz)
+  rw [hn2, hlen] at t2 t3
+  rw [hlen] at t1
+  have hgam : ∀ k < (aaNextW mAA W rl r).length, readV (a.computeCore fuel giv g r).1.gamLS k =
+      (a.qrNext fuel giv r).solveCol r (readV a.gamLS)
+        (aaTol (a.qrNext fuel giv r).maxEig a.minDivFac) k := by
+    intro k hk
+    exact computeCore_gam fuel giv a g r (by have := hring2.cap; omega)
+  refine ⟨fun k hk ht => by rw [hgam k hk]; exact t1 k hk ht, fun k hk ht => ?_, fun z => ?_⟩
+  · rw [← t2 k hk ht]
+    apply Finset.sum_congr rfl; intro j _
+    congr 2
+    apply Finset.sum_congr rfl; intro i hi
+    rw [Finset.mem_range] at hi
+    rw [hgam i hi]
+  · have e : ∀ j ∈ range n, (∑ k ∈ range (aaNextW mAA W rl r).length,
+          deflated (a.qrNext fuel giv r) (aaTol (a.qrNext fuel giv r).maxEig a.minDivFac) k j *
+            readV (a.computeCore fuel giv g r).1.gamLS k - r j) ^ 2 =
+        (∑ k ∈ range (aaNextW mAA W rl r).length,
+          deflated (a.qrNext fuel giv r) (aaTol (a.qrNext fuel giv r).maxEig a.minDivFac) k j *
+            (a.qrNext fuel giv r).solveCol r (readV a.gamLS)
+              (aaTol (a.qrNext fuel giv r).maxEig a.minDivFac) k - r j) ^ 2 := by
+      intro j _
+      congr 2
+      apply Finset.sum_congr rfl; intro k hk
+      rw [Finset.mem_range] at hk
+      rw [hgam k hk]
+    rw [Finset.sum_congr rfl e]
+    exact t3 z
 
 end
 end Alpaqa.C10
